@@ -563,6 +563,10 @@ def rule_round4(repo, rep):
     from . import c10
 
     rep.run_borrowed(c10, {"C10-d": "C15-e"}, repo)
+    from . import c04 as _c04, c14 as _c14
+
+    rep.run_borrowed(_c14, {"C14-a": "C15-a"}, repo, only_sites=("_estimate_conv_cycles", "accelerator_configs"))
+    rep.run_borrowed(_c04, {"C04-f'": "C15-e"}, repo, only_sites=("get_first_job_input_volume",))
 
 
 HW_TABLE = {
@@ -610,6 +614,67 @@ def rule_hw_constants(repo, rep):
     if seen < 6:
         raise AnalysisError(f"accelerator rows: only {seen} of the six known accelerators found")
     init = af.func("ArchitectureFeatures.__init__")
+    # SHRAM constants derived in __init__: evaluated for the three bank counts of the table. The last two banks are reserved (for the
+    # activation LUT) exactly on configurations with more than 16 banks; on the others the LUT shares banks with the accumulators, which
+    # is what the hazard tracking (C04) and the block configuration search key on
+    import copy as _copy
+
+    class _Subst(ast.NodeTransformer):
+        def __init__(self, env):
+            self.env = env
+
+        def visit_Attribute(self, node):
+            t = str(norm(node))
+            if t in self.env:
+                return ast.copy_location(ast.Constant(value=self.env[t]), node)
+            return self.generic_visit(node)
+
+    def ev(e, env):
+        v = try_fold(_Subst(env).visit(_copy.deepcopy(e)))
+        return v
+
+    assigns = {str(norm(st.targets[0])): st.value for st in ast.walk(init) if isinstance(st, ast.Assign) and len(st.targets) == 1}
+    need = ("self.shram", "self.shram_bank_size", "self.shram_reserved_output_banks", "self.shram_reserved_unused_banks", "self.shram_total_banks", "self.shram_lut_size")
+    if any(k not in assigns for k in need):
+        raise AnalysisError(f"ArchitectureFeatures.__init__: SHRAM constants {[k for k in need if k not in assigns]} not found")
+    fields = namedtuple_fields(af.assign("SHRAMConfig"))
+    if not fields:
+        raise AnalysisError("SHRAMConfig namedtuple not recognised")
+    for banks in (16, 24, 48):
+        env = {"accel_config.shram_banks": banks}
+        sc = assigns["self.shram"]
+        if not (isinstance(sc, ast.Call) and call_name(sc) == "SHRAMConfig" and len(sc.args) == len(fields)):
+            raise AnalysisError("self.shram = SHRAMConfig(...) not recognised")
+        for f_, a_ in zip(fields, sc.args):
+            env[f"self.shram.{f_}"] = ev(a_, env)
+        for k in ("self.shram_bank_size", "self.shram_reserved_output_banks", "self.shram_reserved_unused_banks", "self.shram_total_banks", "self.shram_lut_size"):
+            env[k] = ev(assigns[k], env)
+        unused = 2 if banks > 16 else 0
+        want = {"self.shram.reserved_output_banks": 2, "self.shram.bank_size_bytes": 1024, "self.shram.total_banks": banks, "self.shram.reserved_end_banks": unused, "self.shram_bank_size": 1024,
+                "self.shram_reserved_output_banks": 2, "self.shram_reserved_unused_banks": unused, "self.shram_total_banks": banks - unused, "self.shram_lut_size": 2048}
+        # available_shram_banks(uses_lut): the LUT occupies the last two banks of the accelerator, reserved or not
+        from ..absint import AObj as _AObj, Interp as _Interp
+
+        fields_ = {k[len("self."):]: v for k, v in env.items() if k.startswith("self.") and "." not in k[len("self."):] and isinstance(v, int)}
+        for a_ in ast.walk(init):
+            if isinstance(a_, ast.Assign) and len(a_.targets) == 1 and str(norm(a_.targets[0])).startswith("self.shram_reserved_") and str(norm(a_.targets[0]))[5:] not in fields_:
+                v_ = ev(a_.value, env)
+                if isinstance(v_, int):
+                    fields_[str(norm(a_.targets[0]))[5:]] = v_
+        for lut_, exp_ in ((True, banks - 2), (False, banks - unused)):
+            ps_ = [p_ for p_ in _Interp(repo, af).run("ArchitectureFeatures.available_shram_banks", lambda: ([_AObj("self", dict(fields_), cls="ArchitectureFeatures"), lut_], {})) if p_.kind == "return"]
+            if len(ps_) != 1 or not isinstance(ps_[0].value, int):
+                raise AnalysisError(f"available_shram_banks({lut_}) not evaluable for {banks} banks")
+            env[f"available_shram_banks({lut_})"] = ps_[0].value
+            want_extra = exp_
+            if ps_[0].value != want_extra:
+                rep.bad("C15-c", "ethosu/vela/architecture_features.py:ArchitectureFeatures.available_shram_banks", f"{banks} banks: available_shram_banks({lut_}) = {ps_[0].value} (hardware: {want_extra})",
+                        "the LUT address (bank size x available banks) falls inside the accumulator partition of the layout that the allocator builds up to `lut_start`: the partitions overlap")
+            else:
+                rep.ok("C15-c", "ethosu/vela/architecture_features.py:ArchitectureFeatures.available_shram_banks", f"{banks} banks: available_shram_banks({lut_}) = {want_extra}")
+        diff = [f"{k} = {env.get(k)} (hardware: {w})" for k, w in want.items() if env.get(k) != w]
+        rep.check(not diff, "C15-c", "ethosu/vela/architecture_features.py:ArchitectureFeatures.__init__", f"SHRAM constants for {banks} banks: 2 output banks, 1 KiB banks, {unused} banks reserved at the end, 2 KiB LUT",
+                  "; ".join(diff) + ": with banks wrongly taken as reserved the LUT area is left out of the SHRAM extents that hazards are tracked on and of the bank budget of the block configuration search")
     bm = [st for st in ast.walk(init) if isinstance(st, ast.Assign) and str(norm(st.targets[0])) == "self.ofm_block_max"]
     if len(bm) != 1 or not (isinstance(bm[0].value, ast.Call) and call_name(bm[0].value) == "Block"):
         raise AnalysisError("ofm_block_max not recognised")
